@@ -21,6 +21,8 @@ def jobs(tier, seed):
     out.append({"kind": "pump-sched", "gran": "line", "bound": 3 if q else 4, "ncmd": 3})
     out.append({"kind": "pump-sched", "gran": "line", "bound": 2 if q else 3, "ncmd": 3, "with_stop": True})
     out.append({"kind": "pump-sched", "gran": "opcode", "bound": 1 if q else 2, "ncmd": 2})
+    out.append({"kind": "pump-sched", "gran": "line", "bound": 2 if q else 3, "ncmd": 3, "slow": True})
+    out.append({"kind": "pump-sched", "gran": "opcode", "bound": 1, "ncmd": 2, "slow": True})
     for i in range(4 if q else 16):
         out.append({"kind": "sim-race", "seed": seed, "i": i, "n": 60 if q else 400})
     for i in range(6 if q else 16):
@@ -156,6 +158,16 @@ def run_pump_sched(job, res):
 
     codes = [mtask.SyncTasks._poll_queue.__code__, mtask.Tasks.run_job.__code__, mtask.SyncTasks.add_job.__code__,
              mtask.SyncTasks.stop.__code__]
+
+    def nested(code):
+        for c in code.co_consts:
+            if hasattr(c, "co_code"):
+                yield c
+                yield from nested(c)
+
+    # generator expressions / comprehensions / lambdas inside those functions are preemption points as well
+    codes += [c for top in list(codes) for c in nested(top)]
+    slow = job.get("slow", False)
     with_stop = job.get("with_stop", False)
     ex = Explorer(codes, "line" if job["gran"] == "line" else "instr")
     NCMD = job.get("ncmd", 3)
@@ -193,6 +205,19 @@ def run_pump_sched(job, res):
                 if state["sleeps"] >= 3:
                     tasks._stop_event.set()
 
+            @staticmethod
+            def time():
+                # with slow=True every job appears to have taken 0.25 s (a slow user callback): the slow-job paths run
+                state["clock"] = state.get("clock", 0.0) + (0.25 if slow else 0.0)
+                return 1000.0 + state["clock"]
+
+            @staticmethod
+            def perf_counter():
+                state["clock"] = state.get("clock", 0.0) + (0.25 if slow else 0.0)
+                return 1000.0 + state["clock"]
+
+            monotonic = perf_counter
+
         ctx = {"t": t, "tasks": tasks, "gw": gw, "time": FakeTime()}
 
         def producer():
@@ -202,7 +227,10 @@ def run_pump_sched(job, res):
                 gw.stop()          # the user stops the gateway while the poll thread is somewhere in its loop
 
         def pump():
-            with Patched((mtask, "time", ctx["time"])):
+            patches = [(mtask, "time", ctx["time"])]
+            if slow and hasattr(mtask, "timer"):
+                patches.append((mtask, "timer", ctx["time"].perf_counter))
+            with Patched(*patches):
                 tasks._poll_queue()
         return producer, pump, ctx
 
@@ -212,7 +240,7 @@ def run_pump_sched(job, res):
         for run, ctx, stuck, sched in ex.explore(make, job["bound"]):
             res.evals += 1
             res.count("pump_schedules")
-            case = {"kind": "pump-sched", "gran": job["gran"], "schedule": sched, "bound": job["bound"], "with_stop": with_stop}
+            case = {"kind": "pump-sched", "gran": job["gran"], "schedule": sched, "bound": job["bound"], "with_stop": with_stop, "slow": slow}
             if stuck:
                 res.count("stuck_schedules")
                 continue
@@ -445,7 +473,7 @@ def replay(case):
     elif case["kind"] == "sim-race":
         r = run({"kind": "sim-race", "seed": 0, "i": 0, "n": 200})
     elif case["kind"] == "pump-sched":
-        r = run({"kind": "pump-sched", "gran": case["gran"], "bound": case.get("bound", 2), "ncmd": 3, "with_stop": case.get("with_stop", False)})
+        r = run({"kind": "pump-sched", "gran": case["gran"], "bound": case.get("bound", 2), "ncmd": 3, "with_stop": case.get("with_stop", False), "slow": case.get("slow", False)})
     elif case["kind"] == "sched":
         r = run({"kind": "sched", "scenario": case["scenario"], "write_fails": case["write_fails"], "gran": case["gran"], "bound": 2})
     else:
